@@ -14,6 +14,15 @@ RANGES = {"Game2048": {".board": (0, 6)}, "BinPack": {".container": (0, 4), ".em
 # reset must be encodable (no data-dependent generator loops that need unwinding proofs): substitutes
 RESET_CFG = {"BinPack": "BinPack@csv", "MMST": None, "ConnectorRW@3x2": None}
 
+# float-heavy rewards (norms of symbolic coordinates): expensive arithmetic is abstracted by uninterpreted functions when two
+# encodings of the same code are compared (sound for equalities, engine/jx2smt.py UF_MODE)
+UF_ENVS = {"TSP", "CVRP", "Knapsack", "MultiCVRP"}
+
+
+def set_mode(name):
+    J.UF_MODE = name.partition("@")[0] in UF_ENVS
+
+
 WRAP_ENVS = ["Game2048", "GraphColoring", "Minesweeper", "RubiksCube", "SlidingTilePuzzle", "Sudoku", "BinPack@csv", "FlatPack", "JobShop",
              "Knapsack", "Tetris", "Cleaner@3x3x1", "Connector", "CVRP", "LevelBasedForaging", "Maze@3x3", "MultiCVRP", "PacMan",
              "RobotWarehouse", "Snake", "Sokoban", "TSP"]
@@ -51,18 +60,17 @@ def eq_obligations(R, prefix, A, items, replay=None, timeout_s=None, cof=None):
 
 
 def np_tree_equal(a, b):
+    """same structure, shapes and values; dtypes must agree up to width (an eager run may keep a Python scalar where jit
+    returns a 32-bit array)"""
     la, lb = jax.tree_util.tree_leaves(a), jax.tree_util.tree_leaves(b)
     if len(la) != len(lb):
         return False
+    fam = {"b": "b", "i": "i", "u": "i", "f": "f"}
     for x, y in zip(la, lb):
         x, y = np.asarray(x), np.asarray(y)
-        if x.shape != y.shape or x.dtype != y.dtype:
+        if x.shape != y.shape or fam.get(x.dtype.kind, x.dtype.kind) != fam.get(y.dtype.kind, y.dtype.kind):
             return False
-        if x.dtype.kind == "f":
-            if not np.array_equal(x.view(np.uint32) if x.dtype == np.float32 else x, y.view(np.uint32) if y.dtype == np.float32 else y):
-                if not np.array_equal(x, y, equal_nan=True):
-                    return False
-        elif not np.array_equal(x, y):
+        if not np.array_equal(x, y, equal_nan=(x.dtype.kind == "f")):
             return False
     return True
 
